@@ -4203,9 +4203,11 @@ func (l *Lowerer) lowerAssign(assign *parser.AssignStmt, target *[]ir.Statement)
 	// Special case: *ptr = value extracts the inner pointer.
 	var pointer ir.ExpressionHandle
 	var err error
+	lhsIsDeref := false
 	if unary, ok := assign.Left.(*parser.UnaryExpr); ok && unary.Op == parser.TokenStar {
 		// *ptr dereference: the operand itself is the pointer
 		pointer, err = l.lowerExpressionForRef(unary.Operand, target)
+		lhsIsDeref = true
 	} else {
 		pointer, err = l.lowerExpressionForRef(assign.Left, target)
 	}
@@ -4233,6 +4235,14 @@ func (l *Lowerer) lowerAssign(assign *parser.AssignStmt, target *[]ir.Statement)
 		// Must happen BEFORE Splat to match Rust expression ordering:
 		// concretize → Load → Splat → Binary
 		loaded := l.applyLoadRule(pointer)
+		if lhsIsDeref && loaded == pointer {
+			// `*p op= v` where p is a pointer *value* (e.g. a ptr<function, T> parameter):
+			// the load rule does not apply to pointer values, but the explicit
+			// dereference on the left-hand side still reads the pointee.
+			loaded = l.addExpression(ir.Expression{
+				Kind: ir.ExprLoad{Pointer: pointer},
+			})
+		}
 		// Splat scalar RHS to match vector LHS (e.g., a += 1.0 where a: vec2<f32>).
 		value = l.splatScalarToMatchPointer(pointer, value)
 		value = l.addExpression(ir.Expression{
